@@ -151,6 +151,21 @@ def R2_collect(run):
         up = calls_to(h, ends("Position::update_reward_owed"))
         ok = len(up) == 1 and strip(up[0][2][2])[0] == "field" and strip(up[0][2][2])[2] == "1" and is_call(strip(up[0][2][2])[1], "calculate_collect_reward") and \
             mentions(up[0][2][1], lambda s: s[0] == "param" and s[1] == "reward_index")
+        if not up:
+            # the setter written in place: position.reward_infos[reward_index].amount_owed := calculate_collect_reward(..).1, on every
+            # successful path
+            pvh = prov_of(h)
+            ws_ = [w for w in writes.field_stores(facts) if w["fn"] is h and w["field"] == "amount_owed" and w["last"] and w["kind"] == "assign"]
+            ok = len(ws_) == 1
+            if ok:
+                w = ws_[0]
+                st_ = h.blocks[w["block"]]["s"][w["stmt"]]
+                v = strip(pvh._rvalue(w["rv"], w["block"], w["stmt"], 0))
+                idx = [pvh.local(e["ix"], w["block"], w["stmt"]) for e in st_["p"]["p"] if isinstance(e, dict) and "ix" in e]
+                base = pvh.local(st_["p"]["l"], w["block"], w["stmt"])
+                ok = v[0] == "field" and v[2] == "1" and is_call(strip(v[1]), "calculate_collect_reward") and len(idx) == 1 and \
+                    mentions(idx[0], lambda s: s[0] == "param" and s[1] == "reward_index") and acc(base) == "position" and \
+                    any(isinstance(e, dict) and e.get("f") == "reward_infos" for e in st_["p"]["p"]) and not cfg.success_reach(h, 0, cut_blocks=[w["block"]])
         run.check("R2", "remainder-stored@" + mod, ok, "%s does not store calculate_collect_reward(..).1 as the reward's new owed amount at reward_index" % mod, loc=h.loc(),
                   detail="position.update_reward_owed(index, .1)")
         st = structs.get(mod + "::" + sname)
@@ -159,7 +174,10 @@ def R2_collect(run):
         run.check("R2", "vault-binding@" + sname, ok, "%s.reward_vault is not bound to whirlpool.reward_infos[reward_index].vault (%s)" % (sname, f.values("address") if f else None),
                   loc=st.loc("reward_vault") if st else None, detail="address = whirlpool.reward_infos[reward_index as usize].vault")
     # update_reward_owed writes reward_infos[index].amount_owed := amount
-    fn = facts.need_fn("state::position::Position::update_reward_owed")
+    fn = facts.fn("state::position::Position::update_reward_owed")
+    if fn is None:
+        run.ok("R2", "update_reward_owed", detail="setter written in place (decided by remainder-stored@ in both handlers)")
+        return
     pv = prov_of(fn)
     ws = [w for w in writes.field_stores(facts) if w["fn"] is fn and w["last"]]
     ok = len(ws) == 1 and ws[0]["field"] == "amount_owed" and is_param(pv._rvalue(ws[0]["rv"], ws[0]["block"], ws[0]["stmt"], 0), "amount_owed")
